@@ -594,6 +594,8 @@ def g_kill(rng, family=None):
     family 'branching': a worker with two nested workers that each own a subprocess (kill_process_tree must
     walk a branching tree); family 'already_shutting_down': a graceful non-waiting shutdown precedes the forced one."""
     kind = "reusable" if rng.random() < 0.5 else "plain"
+    if family == "already_shutting_down_factory":
+        kind = "reusable"
     mw = rng.randint(1, 3)
     kw = {"max_workers": mw, "timeout": rng.choice([None, 10]) if kind == "plain" else 10}
     ops = [{"op": "new", "ex": "e", "kind": kind, "kw": kw}]
@@ -608,6 +610,20 @@ def g_kill(rng, family=None):
         depth = max(depth, 1)
         ops.append({"op": "submit", "ex": "e", "task": {"k": "nested", "kind": "plain", "kw": {"max_workers": 2, "timeout": 10},
                                                          "sub": [{"k": "spawn_subprocess", "hang": 120}, {"k": "spawn_subprocess", "hang": 120}], "then": "hang"}})
+    if family == "idle_with_descendants":
+        # finished tasks left long-lived subprocesses behind (directly, or below a nested pool kept alive in the worker); every
+        # future is done when the forced shutdown arrives: the trees must be killed all the same
+        kw["max_workers"] = mw = rng.randint(1, 2)
+        ops = [{"op": "new", "ex": "e", "kind": kind, "kw": kw}]
+        for _ in range(rng.randint(1, 3)):
+            ops.append({"op": "submit", "ex": "e", "task": {"k": "spawn_subprocess", "d": 300}})
+        ops += [{"op": "wait", "futs": "all"}, {"op": "sleep", "d": rng.choice([0.05, 0.3])}]
+        via = rng.choice(["shutdown", "factory"]) if kind == "reusable" else "shutdown"
+        kill_op = ({"op": "shutdown", "ex": "e", "kill_workers": True, "forced": True} if via == "shutdown"
+                   else {"op": "get_reusable", "ex": "e", "kw": {"max_workers": mw, "timeout": 5, "kill_workers": True}, "forced": True})
+        ops.append(kill_op)
+        prog = {"threads": [ops], "end": "return", "tail": [{"op": "ns", "grace": 3.0, "after_forced": True}, {"op": "wait", "futs": "all"}, {"op": "census"}]}
+        return prog, {"gen": "g_kill", "kind": kind, "kw": kw, "depth": 0, "via": via, "family": family}
     if family == "churn":
         # every worker owns a long-lived helper and a stream of short-lived subprocesses that vanish during the kill sweep
         mw = kw["max_workers"] = rng.randint(2, 3)
@@ -632,10 +648,12 @@ def g_kill(rng, family=None):
     if rng.random() < 0.4:
         ops.append({"op": "cancel", "fut": "__recent__"})
     ops.append({"op": "sleep", "d": rng.choice([0.0, 0.02, 0.3, 0.8, 1.5]) if family not in ("branching", "churn") else (rng.choice([4.0, 5.0]) if family == "branching" else rng.choice([1.5, 2.5]))})
-    if family == "already_shutting_down" or (family is None and rng.random() < 0.15):
+    if family in ("already_shutting_down", "already_shutting_down_factory") or (family is None and rng.random() < 0.15):
         ops.append({"op": "shutdown", "ex": "e", "wait": False})
         ops.append({"op": "sleep", "d": rng.choice([0.0, 0.05, 0.3])})
     via = rng.choice(["shutdown", "factory"]) if kind == "reusable" else "shutdown"
+    if family == "already_shutting_down_factory":
+        via = "factory"
     threads = [ops]
     barriers = {}
     kill_op = ({"op": "shutdown", "ex": "e", "kill_workers": True, "forced": True} if via == "shutdown"
@@ -994,11 +1012,13 @@ def g_depth(rng, family=None):
     return {"threads": [ops], "end": "return"}, {"gen": "g_depth", "max_depth": maxd, "depth_to": depth_to, "fork_at": fork_at, "kind": kind, "env": env, "variants": variants, "family": family, "init_at": init_at}
 
 
-def g_fresh(rng, force_init=None, force_exc=None):
+def g_fresh(rng, force_init=None, force_exc=None, force_drain=False):
     """C18: canary descriptors, env overlays, initializer on every kind of worker arrival."""
     ctx = rng.choice(["loky", "loky", "loky", "loky_init_main"])
     kind = rng.choice(["plain", "reusable"])
     tmo = rng.choice([10, 0.1, 0.05])
+    if force_drain:
+        tmo = rng.choice([0.1, 0.05])
     mw = rng.randint(1, 3)
     overlay = {}
     for i in range(rng.randint(0, 3)):
@@ -1045,8 +1065,16 @@ def g_fresh(rng, force_init=None, force_exc=None):
         for i in range(mw + 3):
             ops.append({"op": "submit", "ex": "e", "task": {"k": "probe", "what": what}})
         ops += [{"op": "keeplists", "ex": "e"}, {"op": "wait", "futs": "all"}]
+    drain = False
+    if tmo < 1 and init_variant in ("token", "leak0") and rng.random() < (1.0 if force_drain else 0.3):
+        # work still on its way (slow to pickle) when the shutdown is requested: the workers that idle out during the drain are
+        # respawned by the manager thread of an executor that is already shutting down - still with the initializer
+        drain = True
+        for i in range(rng.randint(2, 4)):
+            ops.append({"op": "submit", "ex": "e", "task": {"k": "probe", "what": what, "arg": ["slow_pickle", round(rng.choice([4, 8]) * tmo + 0.1, 3)]}})
+        ops.append({"op": "shutdown", "ex": "e", "wait": rng.random() < 0.5})
     ops += [{"op": "wait", "futs": "all"}, {"op": "shutdown", "ex": "e", "wait": True}]
-    return {"threads": [ops], "end": "return"}, {"gen": "g_fresh", "ctx": ctx, "kind": kind, "kw": kw, "init": init_variant, "overlay": overlay, "as_module": rng.random() < 0.35}
+    return {"threads": [ops], "end": "return"}, {"gen": "g_fresh", "ctx": ctx, "kind": kind, "kw": kw, "init": init_variant, "overlay": overlay, "as_module": rng.random() < 0.35, "drain": drain}
 
 
 ALL_SIGNALS = ["SIGHUP", "SIGINT", "SIGQUIT", "SIGILL", "SIGTRAP", "SIGABRT", "SIGBUS", "SIGFPE", "SIGKILL", "SIGUSR1", "SIGSEGV", "SIGUSR2", "SIGPIPE",
